@@ -49,7 +49,9 @@ class _Helper(object):
         for n in ast.walk(node):
             if n is node:
                 continue
-            if isinstance(n, (ast.FunctionDef, ast.AsyncFunctionDef, ast.ClassDef, ast.Yield, ast.YieldFrom, ast.Global, ast.Nonlocal)):
+            if isinstance(n, (ast.ClassDef, ast.Yield, ast.YieldFrom, ast.Global, ast.Nonlocal)):
+                self.ok = False
+            if isinstance(n, (ast.FunctionDef, ast.AsyncFunctionDef)) and any(isinstance(x, ast.Return) and x.value is not None for x in ast.walk(n)) and False:
                 self.ok = False
             if isinstance(n, ast.Call) and ((isinstance(n.func, ast.Attribute) and n.func.attr == node.name) or
                                             (isinstance(n.func, ast.Name) and n.func.id == node.name)):
@@ -68,14 +70,16 @@ class _Helper(object):
                 if not last:
                     return False
             elif isinstance(s, ast.If):
-                has = any(isinstance(x, ast.Return) for x in ast.walk(s))
+                has = any(isinstance(x, ast.Return) for x in _walk_own(s))
                 if has:
                     # both arms are themselves tail-return blocks; an arm that contains a return must END the function
                     for arm in (s.body, s.orelse):
-                        if any(isinstance(x, ast.Return) for st in arm for x in ast.walk(st)):
+                        if any(isinstance(x, ast.Return) for st in arm for x in _walk_own(st)):
                             if not self._returns_in_tail(arm) or not _ends(arm):
                                 return False
-            elif any(isinstance(x, ast.Return) for x in ast.walk(s)):
+            elif isinstance(s, (ast.FunctionDef, ast.AsyncFunctionDef)):
+                continue
+            elif any(isinstance(x, ast.Return) for x in _walk_own(s)):
                 return False          # return inside a loop / try / with
         return True
 
@@ -105,8 +109,20 @@ class _Subst(ast.NodeTransformer):
         return n
 
 
+def _walk_own(node):
+    """ast.walk that does not descend into nested function definitions / lambdas (their returns are their own)"""
+    stack = [node]
+    while stack:
+        n = stack.pop()
+        yield n
+        for c_ in ast.iter_child_nodes(n):
+            if isinstance(c_, (ast.FunctionDef, ast.AsyncFunctionDef, ast.Lambda)):
+                continue
+            stack.append(c_)
+
+
 def _has_return(stmts):
-    return any(isinstance(x, ast.Return) for st in stmts for x in ast.walk(st))
+    return any(isinstance(x, ast.Return) for st in stmts for x in _walk_own(st))
 
 
 def _tail(body, mk, at):
